@@ -261,6 +261,20 @@ def w3(fb, chk):
                   "request field is %s, expected the request argument converted by Into<u32>" % show(fields[req_f]), f.loc())
         chk.check(fields[size_f] == psize, "W3", short + "::new:size", "size <- size argument",
                   "size field is %s, expected the size argument unchanged" % show(fields[size_f]), f.loc())
+    # the frontend's configurable header flags are what the application last set (set_hdr_flags replaces, it does not add)
+    for g in fb.find(name="set_hdr_flags", self_adt="Frontend"):
+        gs = Sym(g, fb)
+        ws_ = [w for w in field_writes(g) if "flags" in (w["field"] or "")]
+        if not ws_:
+            chk.bad("W3", "setter:set_hdr_flags", "Frontend::set_hdr_flags does not assign the header flags (a compound update such as `|=` "
+                    "keeps flags that were set earlier in every later request header)", g.loc())
+        for w in ws_:
+            v = gs.rvalue(w["rv"])
+            while v[0] in ("ref", "deref"):
+                v = v[1]
+            chk.check(v[0] == "param", "W3", "setter:set_hdr_flags", "hdr_flags <- the parameter",
+                      "Frontend::set_hdr_flags stores `%s`, not the flags it was given: a flag once set stays in every later request "
+                      "header" % show(v)[:60], g.loc(w["line"]))
     # callers of the constructor: the flags argument
     news = {f.key for f in header_new_fns(fb)}
     ncallers = 0
